@@ -8,6 +8,7 @@ import (
 
 const smtPreamble = `(declare-datatypes ((Path 0)) (((pnil) (pfld (pfp Path) (pfi Int)) (pidx (pip Path) (pii Int)) (pgh (pgp Path) (pgi Int)))))
 (declare-datatypes ((Ref 0)) (((mkref (rid Int) (rpath Path)))))
+(define-fun orid ((r Ref)) Int (ite (< (rid r) 0) (- (- (rid r)) 1) (rid r)))
 `
 
 const rnil = "(mkref 0 pnil)"
@@ -231,8 +232,22 @@ func extendIdx(addr Term, idx Term) Term {
 	return "(mkref " + tRid(addr) + " (pidx " + tRpath(addr) + " " + idx + "))"
 }
 
+// Ghost cells live in a separate (negative) rid space, so that no real cell —
+// whatever its path — can coincide with a ghost cell. orid recovers the owner.
 func extendGhost(addr Term, k int) Term {
-	return fmt.Sprintf("(mkref %s (pgh %s %d))", tRid(addr), tRpath(addr), k)
+	return fmt.Sprintf("(mkref (- (- %s) 1) (pgh %s %d))", tRid(addr), tRpath(addr), k)
+}
+
+// tOrid: the rid of the object an address (real or ghost cell) belongs to.
+func tOrid(addr Term) Term {
+	r := tRid(addr)
+	if strings.HasPrefix(r, "(- (- ") && strings.HasSuffix(r, ") 1)") {
+		return r[6 : len(r)-4]
+	}
+	if strings.HasPrefix(r, "alloc_") || r == "0" {
+		return r
+	}
+	return "(orid " + addr + ")"
 }
 
 func zeroOfSort(s string) Term {
